@@ -7,7 +7,7 @@ Driver of the C13 model. One request per line, tokens separated by one space.
   key    ::= kt<hex utf8> | ki<int> | kb<hex>
   value  ::= b0 | b1 | i<int> | u<nat> | d<hex16 bits> | f<hex8 bits> | y<hex> | t<hex utf8>
            | j json | v<hex, 4 digits per element> | a<n> value*n | m<n> (key value)*n | z
-  json   ::= jz | jb0 | jb1 | ju<nat> | ji<int> | jd<hex16> | js<hex> | ja<n> json*n | jo<n> (<hex key> json)*n
+  json   ::= jz | jb0 | jb1 | ju<nat> | ji<int> | jd<hex16> | js<hex> | ja<n> json*n | jo<n> (k<hex key> json)*n
   cbor   ::= cb0 | cb1 | ci<int> | cd<hex16> | cy<hex> | ct<hex> | ca<n> cbor*n | cm<n> (cbor cbor)*n | cz
   hint   ::= - | <hex16>,<hex16>,…   f64 bit patterns for which the JSON clause of is_f32_read_back holds
                                      (computed by the harness; the shortest-decimal rule is not modelled)
@@ -17,6 +17,7 @@ Driver of the C13 model. One request per line, tokens separated by one space.
   norm <hint> type value       FieldType::normalize                 -> value
   prune - type value           FieldType::prune_undeclared          -> value
   set <hint> type value        Document::set_field                  -> ok value | err
+  rt <hint> type value         set_field, then load of the stored value -> err | ok value | <load answer>
   load <hint> type value       cbor2 encode, decode, try_from_doc   -> ok value | err:ser | err:de | err:read
   ext <hint> type cbor         FieldType::extract                   -> ok value | err
   (document / schema level requests are handled by `AndaVerif.DrvC13.docStep`, see below)
@@ -139,7 +140,8 @@ where
   manyKeyed : Nat → List String → Option (List (String × Json) × List String)
     | 0, r => some ([], r)
     | n + 1, k :: r => do
-      let k ← hexText? k
+      if !k.startsWith "k" then none
+      let k ← hexText? (dropPrefix k 1)
       let (t, r) ← parseJson r
       let (ts, r) ← manyKeyed n r
       pure ((k, t) :: ts, r)
@@ -227,7 +229,7 @@ partial def showJson : Json → String
   | .float d => "jd" ++ natHex 16 d
   | .str s => "js" ++ textHex s
   | .arr xs => " ".intercalate (("ja" ++ toString xs.length) :: xs.map showJson)
-  | .obj kvs => " ".intercalate (("jo" ++ toString kvs.length) :: kvs.map (fun kv => textHex kv.1 ++ " " ++ showJson kv.2))
+  | .obj kvs => " ".intercalate (("jo" ++ toString kvs.length) :: kvs.map (fun kv => "k" ++ textHex kv.1 ++ " " ++ showJson kv.2))
 
 partial def showValue : FieldValue → String
   | .bool b => if b then "b1" else "b0"
@@ -262,6 +264,15 @@ def parseHint (s : String) : Option (List Nat) :=
 
 def wfArgs (fm : FloatModel) (v : FieldValue) : Bool := v.WF fm
 
+def loadStr (fm : FloatModel) (ft : FieldType) (v : FieldValue) : String :=
+  match toDM fm v with
+  | none => "err:ser"
+  | some dm => match readBack fm dm with
+    | none => "err:de"
+    | some r => match readPath fm ft r with
+      | none => "err:read"
+      | some x => "ok " ++ showValue x
+
 def valueStep (ws : List String) : Option String :=
   match ws with
   | "cx" :: _ :: d :: n :: a :: m :: rest => do
@@ -280,14 +291,11 @@ def valueStep (ws : List String) : Option String :=
     | "norm" => pure (showValue (normalize fm ft v))
     | "prune" => pure (showValue (prune ft v))
     | "set" => pure (match setField fm ft v with | some s => "ok " ++ showValue s | none => "err")
-    | "load" =>
-      match toDM fm v with
-      | none => pure "err:ser"
-      | some dm => match readBack fm dm with
-        | none => pure "err:de"
-        | some r => match readPath fm ft r with
-          | none => pure "err:read"
-          | some x => pure ("ok " ++ showValue x)
+    | "rt" =>
+      match setField fm ft v with
+      | none => pure "err"
+      | some s => pure ("ok " ++ showValue s ++ " | " ++ loadStr fm ft s)
+    | "load" => pure (loadStr fm ft v)
     | _ => none
   | _ => none
 
